@@ -2,7 +2,8 @@
    Reading guide: c16_iter_laws o rep lo hi (C16_Spec.v) says that on the iterators rep lo .. rep hi every operator of
    the table o (== != < <= > >= - ++ -- + += - -= [] * ) is integer arithmetic on positions. *)
 From Coq Require Import List ZArith Bool.
-From DuneV Require Import C16_Model C16_Spec C16_Proofs C16_Proofs_Ranges.
+From Coq Require Import Sorted Permutation.
+From DuneV Require Import C16_Model C16_Spec C16_Proofs C16_Proofs_Ranges C16_Proofs_Audit.
 Import ListNotations.
 Local Open Scope Z_scope.
 
@@ -202,6 +203,56 @@ Theorem C16_sllist_iterators :
 Proof. exact c16_sl_forward_laws. Qed.
 Print Assumptions C16_sllist_iterators.
 
+(* ---- API-coverage audit: alternative protocols, further facade users, container-provided iterators, utilities ---- *)
+(* IteratorFacade for a derived class without baseIterator(): ++ / -- are the `+= 1` / `-= 1` fallbacks *)
+Theorem C16_new_facade_manual_protocol_laws :
+  forall (B V W : Type) (bs : c16_base B V) (star : B -> W) (rep : Z -> B) (lo hi : Z),
+    c16_base_laws bs rep lo hi -> c16_iter_laws (c16_nf_ops_manual bs star) rep lo hi.
+Proof. exact c16_new_facade_manual_laws. Qed.
+Print Assumptions C16_new_facade_manual_protocol_laws.
+
+(* ContainerWrapperIterator (rows of DiagonalMatrix) on the BidirectionalIteratorFacade *)
+Theorem C16_container_wrapper_iterator :
+  forall xs conv,
+    c16_fwd_laws (c16_legacy_ops (c16_cw_prims xs) conv) c16_dense_rep (- 2 ^ 61) (2 ^ 61) /\
+    (forall a, c16_in (- 2 ^ 61) (2 ^ 61) a -> c16_in (- 2 ^ 61) (2 ^ 61) (a - 1) ->
+       c16_o_dec (c16_legacy_ops (c16_cw_prims xs) conv) (c16_dense_rep a) = c16_dense_rep (a - 1)) /\
+    (forall a b, c16_in (- 2 ^ 61) (2 ^ 61) a -> c16_in (- 2 ^ 61) (2 ^ 61) b ->
+       c16_bi_eq (c16_cw_prims xs) conv (c16_dense_rep a) (c16_dense_rep b) = (a =? b) /\
+       c16_bi_ne (c16_cw_prims xs) conv (c16_dense_rep a) (c16_dense_rep b) = negb (a =? b)).
+Proof. exact c16_cw_bidirectional_laws. Qed.
+Print Assumptions C16_container_wrapper_iterator.
+
+(* begin / end / beforeEnd / beforeBegin / find of DenseVector and DenseMatrix are the iterators at positions 0, n, n-1, -1, min(i,n) *)
+Theorem C16_dense_container_iterators :
+  forall n i, 0 <= n < 2 ^ 63 -> 0 <= i < 2 ^ 64 ->
+    c16_dense_begin = c16_dense_rep 0 /\ c16_dense_end n = c16_dense_rep n /\
+    c16_dense_before_end n = c16_dense_rep (n - 1) /\ c16_dense_before_begin = c16_dense_rep (-1) /\
+    c16_dense_find n i = c16_dense_rep (Z.min i n).
+Proof. exact c16_dense_container_iterators. Qed.
+Print Assumptions C16_dense_container_iterators.
+
+(* max_value / min_value / any_true / all_true *)
+Theorem C16_range_utilities :
+  forall x xs bs,
+    (In (c16_max_value x xs) (x :: xs) /\ forall y, In y (x :: xs) -> y <= c16_max_value x xs) /\
+    (In (c16_min_value x xs) (x :: xs) /\ forall y, In y (x :: xs) -> c16_min_value x xs <= y) /\
+    c16_any_true bs = existsb (fun b => b) bs /\ c16_all_true bs = forallb (fun b => b) bs.
+Proof. exact c16_range_utilities_correct. Qed.
+Print Assumptions C16_range_utilities.
+
+(* integersequence.hh: contains / difference / equal / filter / sorted *)
+Theorem C16_integer_sequence_helpers :
+  forall s j v,
+    (c16_iseq_contains s v = true <-> In v s) /\
+    c16_iseq_difference_dec s j = filter (fun i => negb (c16_iseq_contains j i)) s /\
+    (c16_iseq_equal s j = true <-> s = j) /\
+    (forall f, c16_iseq_filter f s = filter f s) /\
+    Permutation (c16_iseq_sorted Z.ltb s) s /\ StronglySorted Z.le (c16_iseq_sorted Z.ltb s) /\
+    Permutation (c16_iseq_sorted Z.gtb s) s /\ StronglySorted Z.ge (c16_iseq_sorted Z.gtb s).
+Proof. exact c16_integer_sequence_helpers. Qed.
+Print Assumptions C16_integer_sequence_helpers.
+
 (* ------------------------------------------------------------------ non-vacuity *)
 (* the hypotheses of C16_facade_laws are satisfiable by a real instance, and the conclusion speaks about real values:
    one-before-begin (size_t(-1)) < position 2 for a mutable lhs and a const rhs *)
@@ -225,3 +276,7 @@ Example C16_ex_switch : c16_hy_switch_dynamic [1; 4; 2] 4 (fun i => 100 + i) (-1
 Proof. vm_compute. split; reflexivity. Qed.
 Example C16_ex_accumulate : c16_hy_accumulate C16Static (fun a x => 7 * a + x) [4; 5; 6] 1 = 580.
 Proof. vm_compute. reflexivity. Qed.
+Example C16_ex_sorted : c16_iseq_sorted Z.ltb [5; 5; 0; 9; 2; 2; 7] = [0; 2; 2; 5; 5; 7; 9] /\ c16_iseq_difference_dec [5; 5; 0; 9; 2; 2; 7] [2; 3; 9] = [5; 5; 0; 7].
+Proof. vm_compute. split; reflexivity. Qed.
+Example C16_ex_manual_protocol : c16_o_inc (c16_nf_ops_manual (c16_vec_base [10; 20]) (fun p => c16_at [10; 20] p)) 0 = 1 /\ c16_dense_find 3 7 = 3.
+Proof. vm_compute. split; reflexivity. Qed.
